@@ -22,7 +22,10 @@ type Env struct {
 	obs   []J            // observation of every step executed so far in this vector
 	objs  map[string]any // named Go objects created by steps
 	seed  int64
-	arena map[string][]byte // one long-lived input buffer per (act, parameter), see present.go
+	arena map[string][]byte // one long-lived input buffer per act, see present.go
+	twins map[string]J      // the same arguments as the last call of an act, taken from the twin copy behind them
+	used  map[string]int    // octets of the arena the last call's parameters occupy
+	held  []*heldItem       // results handed out earlier
 }
 
 func newEnv(seed int64) *Env {
